@@ -353,6 +353,30 @@ func runSeq(rep *hx.Report, rng *hx.Rng, o *hx.Opts, dS3, iS3 bool, faultAt stri
 					rep.Violate("impl-violation", "read-back (Props.C15.no_fault_readback_partial)", what, []string{"seq " + name})
 				}
 			}
+			// the whole message goes through the reconstruction, a different reader of the same blobs: every part's text, as
+			// it was submitted, is in it
+			whole := strings.Join(c.Cmd(fmt.Sprintf("FETCH %d BODY.PEEK[]", s.seq)).Untagged, "\n")
+			for k, p := range s.parts {
+				enc := strings.TrimRight(p.encoded(), "\r\n")
+				if len(enc) == 0 || strings.Contains(whole, enc) {
+					continue
+				}
+				// an equivalent re-encoding is C02's business; what matters here is that the content is there at all
+				if p.cte == "base64" || strings.Contains(whole, enc[:min(len(enc), 40)]) {
+					continue
+				}
+				f.mu.Lock()
+				readFaulted := len(f.getFail) > 0
+				f.mu.Unlock()
+				what := fmt.Sprintf("%s: BODY[] of message %s does not contain the text of its part %d (%s, %d octets; BODY[] has %d octets)", desc, s.tok, k+1, p.cte, len(p.content), len(whole))
+				switch {
+				case readFaulted || (dS3 && !iS3):
+					rep.Finding("C15-F2", "a read fault / an object store the reader cannot reach yields silently empty content instead of an error: "+what, []string{"seq " + name})
+				case crossEnc:
+				default:
+					rep.Violate("impl-violation", "read-back of the whole message (Props.C15.no_fault_readback_partial)", what, []string{"seq " + name})
+				}
+			}
 			c.Close()
 		}
 		f.mu.Lock()
